@@ -281,8 +281,14 @@ class Opaque:
         return f"<opaque {self.what}>"
 
 
+def _warn_noop(*a, **k):
+    """warnings.warn: issuing a warning has no effect on any value (whatever the warning object is)"""
+    return None
+
+
 BUILTIN_EXC = {"ValueError", "TypeError", "KeyError", "IndexError", "AttributeError", "NotImplementedError",
-               "RuntimeError", "StopIteration", "Exception", "AssertionError", "ZeroDivisionError"}
+               "RuntimeError", "StopIteration", "Exception", "AssertionError", "ZeroDivisionError", "RecursionError", "OverflowError",
+               "Warning", "UserWarning", "DeprecationWarning", "FutureWarning", "RuntimeWarning"}
 
 
 class Interp:
@@ -548,7 +554,7 @@ class Interp:
             return ("builtin", name)
         if isinstance(obj, tuple) and len(obj) == 2 and obj[0] == "pymodule":
             if obj[1] == "warnings":
-                return ("native", lambda *a, **k: None)
+                return ("native", _warn_noop)
             import importlib
             val = getattr(importlib.import_module(obj[1]), name)
             return ("native", val) if callable(val) else val
@@ -1039,7 +1045,7 @@ class Interp:
                 import uuid
                 return ("native", uuid.UUID)
             if mod is not None and n.id in mod.imports and mod.imports[n.id][0] == "warnings":
-                return ("native", lambda *a, **k: None) if mod.imports[n.id][1] else ("pymodule", "warnings")
+                return ("native", _warn_noop) if mod.imports[n.id][1] else ("pymodule", "warnings")
             if mod is not None and n.id in mod.imports and mod.imports[n.id][0] == "string" and mod.imports[n.id][1]:
                 import string as _string
                 return getattr(_string, mod.imports[n.id][1])
@@ -1575,6 +1581,8 @@ class Interp:
                 if isinstance(a, _Gen):
                     return list(a.take())
                 return a
+            if f[1] is _warn_noop:
+                return None
             for a in list(args) + list(kwargs.values()):
                 if isinstance(a, Opaque):
                     raise Uninterpretable(f"native call on {a!r}")
